@@ -111,6 +111,30 @@ def build_corpus(tier, rng):
                   repr=rp)
         it.repr_form = form
         items.append(("repr-forms", it))
+    # the discriminant EXPRESSION is copied as written, whatever its spelling: bit-not, parentheses, hex / octal / binary,
+    # separators, suffixes, casts, arithmetic, a literal that restates the implicit numbering
+    forms = [("i8", [("!0", -1), ("1", 1), ("2", 2)]), ("i32", [("!1", -2), ("0", 0), (None, 1), ("-(1)", -1)]),
+             ("i16", [("0", 0), ("1", 1), ("(2)", 2), ("0x10", 16), ("1_7", 17)]), (None, [("!!0", 0), ("1", 1), ("!(-3)", 2)]),
+             ("i64", [("-5", -5), ("-4", -4), ("!2", -3), ("-2", -2), (None, -1), ("0", 0)]), ("u8", [("0o7", 7), ("0b1000", 8), ("9u8", 9), ("5 + 5", 10), ("!0", 255)]),
+             ("i8", [("-0", 0), ("!0", -1), ("1", 1)]), ("u16", [("1", 1), ("1 + 1", 2), ("3", 3), ("2 as u16 * 2", 4), ("!0xfff0", 15)]),
+             ("isize", [("!0", -1), ("!0 + 1", 0), ("1", 1), ("!1 + 4", 2)]), ("i32", [("{ 3 }", 3), ("4", 4), ("-(-5)", 5), ("!(-7)", 6)])]
+    for j, (rp, fl) in enumerate(forms):
+        for payload in (False, True):
+            if payload and rp is None:
+                continue
+            vs = []
+            for q, (ex, val) in enumerate(fl):
+                v = Variant(names[q], "unit")
+                if payload and q % 2 == 0:
+                    v = Variant(names[q], "tuple", [Field("String")]) if q % 4 == 0 else Variant(names[q], "named", [Field("i32", "a")])
+                if ex is not None:
+                    v.discr, v.discr_expr = val, ex
+                vs.append(v)
+            it = Item("E", vs, repr=rp)
+            if j % 2:
+                it.dmetas = [DM("derive", paths=["strum::FromRepr", "PartialOrd"])] if rp else [DM("derive", paths=["PartialOrd"])]      # (FromRepr without a repr re-types the expressions as usize)
+            assert discrs(it) == [val for _, val in fl], (fl, discrs(it))
+            items.append(("discriminant-spelling", it))
     # non-integer repr hints are copied too: #[repr(C)] (layout observable through size_of / align_of)
     for nv in (1, 3, 5):
         items.append(("repr-c", Item("E", [Variant(names[i], "unit") for i in range(nv)], repr="C")))
